@@ -167,3 +167,50 @@ pub fn commit_reversed_operations(
     Ok(applied)
 }
 //@end
+
+// ---- get_undo_operations ---------------------------------------------------------------------------------------------
+//@props C07
+impl Operation {
+//@extract src/operation.rs :: impl Operation :: fn is_undo_point
+    pub fn is_undo_point(&self) -> (r: bool)
+        ensures r == (*self is UndoPoint),
+{
+        self == &Self::UndoPoint
+    }
+//@end
+}
+/// the operations from the last undo point on (all of them when there is none)
+pub open spec fn undo_span(u: Seq<Operation>, r: Seq<Operation>) -> bool {
+    exists|k: int| 0 <= k <= u.len() && r =~= u.skip(k)
+        && (forall|j: int| k < j < u.len() ==> !(#[trigger] u[j] is UndoPoint))
+        && (k > 0 || u.len() == 0 || u[0] is UndoPoint || forall|j: int| 0 <= j < u.len() ==> !(#[trigger] u[j] is UndoPoint))
+        && (k > 0 ==> u[k] is UndoPoint)
+}
+//@extract src/taskdb/undo.rs :: fn get_undo_operations | R20=Operation
+pub fn get_undo_operations(txn: &mut dyn StorageTxn) -> (r: Result<Operations>)
+    requires old(txn).inv(),
+    ensures final(txn).inv(), final(txn).st() == old(txn).st(), final(txn).stored() == old(txn).stored(),
+        //@ob C07 get_undo_operations.offers-exactly-the-unsynchronized-operations-back-to-and-including-the-last-undo-point
+        r matches Ok(v) ==> undo_span(old(txn).st().unsynced, v@),
+        //@ob C07 get_undo_operations.what-it-offers-is-always-accepted-by-commit_reversed_operations (it is a tail of the unsynchronized list)
+        r matches Ok(v) ==> v@.len() > 0 ==> tail_match(old(txn).st().unsynced, v@),
+{
+    let local_ops = txn.unsynced_operations()?;
+    let last_undo_op_idx = rposition_by(&local_ops, Operation::is_undo_point);
+    if let Some(last_undo_op_idx) = last_undo_op_idx {
+        proof {
+            let u = local_ops@;
+            let k = last_undo_op_idx as int;
+            assert(u.subrange(k, u.len() as int) =~= u.skip(k));
+            assert(u.skip(u.len() - u.skip(k).len()) =~= u.skip(k));
+        }
+        Ok(local_ops[last_undo_op_idx..].to_vec())
+    } else {
+        proof {
+            let u = local_ops@;
+            assert(u.skip(0) =~= u);
+        }
+        Ok(local_ops)
+    }
+}
+//@end
